@@ -41,6 +41,10 @@ func (r *hyRun) newVec() comet.VectorIndex {
 		idx.Train(tr)
 		return idx
 	}
+	if r.vecKind == "hnsw" { // 2M = 32 is above the number of documents of any history: the graph search is exhaustive, the same oracle applies
+		idx, _ := comet.NewHNSWIndex(1, comet.L2Squared, 16, 80, 64)
+		return idx
+	}
 	f, _ := comet.NewFlatIndex(1, comet.L2Squared)
 	return f
 }
@@ -225,6 +229,9 @@ func (r *hyRun) search(q hyQuery) {
 	if r.vecKind == "ivf" {
 		s = s.WithNProbes(2) // every cluster: exact
 	}
+	if r.vecKind == "hnsw" {
+		s = s.WithEfSearch(40) // above the number of documents; exercises the efSearch pass-through
+	}
 	if q.qpos != -1 {
 		s = s.WithVector([]float32{float32(q.qpos)})
 	}
@@ -383,7 +390,7 @@ func (r *hyRun) battery() {
 func drvHybrid(args []string) error {
 	cf := newFlags("hybrid")
 	cfgBits := cf.fs.Int("cfg", 7, "configured sub-indexes for generated histories: bit 0 vector, bit 1 text, bit 2 metadata")
-	vecKind := cf.fs.String("vec", "flat", "vector sub-index: flat | ivf (2 clusters, all probed)")
+	vecKind := cf.fs.String("vec", "flat", "vector sub-index: flat | ivf (2 clusters, all probed) | hnsw (M = 16, efSearch above the document count)")
 	cf.fs.Parse(args)
 	t, err := newTrace(*cf.out)
 	if err != nil {
